@@ -423,7 +423,14 @@ async fn build_world(seed: u64, wi: u64) -> World {
         let mut e = new_entry(&[EntryClass::Object, EntryClass::AccessControlProfile, EntryClass::AccessControlSearch, EntryClass::AccessControlReceiverGroup, EntryClass::AccessControlTargetScope], "c40acp", pid(wi, 60));
         e.add_ava(Attribute::Description, Value::new_utf8s("c40 generated"));
         e.add_ava(Attribute::AcpReceiverGroup, Value::Refer(readers));
-        e.add_ava(Attribute::AcpTargetScope, Value::JsonFilt(PF::Or(vec![PF::Eq("class".into(), "person".into()), PF::Eq("class".into(), "group".into())])));
+        e.add_ava(Attribute::AcpTargetScope, Value::JsonFilt(PF::Or(vec![
+            PF::Eq("class".into(), "person".into()),
+            PF::Eq("class".into(), "group".into()),
+            // schema and access-control entries too: the gateway's exclusion becomes observable
+            PF::Eq("class".into(), "classtype".into()),
+            PF::Eq("class".into(), "attributetype".into()),
+            PF::Eq("class".into(), "access_control_profile".into()),
+        ])));
         // a second rule without `class`: entries the receiver can name but not classify
         for a in ["class", "name", "uuid", "spn", "displayname", "mail", "memberof", "gidnumber", "account_expire"] {
             e.add_ava(Attribute::AcpSearchAttr, Value::new_iutf8(a));
@@ -745,7 +752,7 @@ fn gen_filter(r: &mut Rng, w: &World) -> (F, bool) {
     let names: Vec<String> = w.ps.iter().map(|p| p.name.clone()).collect();
     let leaf = |r: &mut Rng| -> F {
         match r.below(7) {
-            0 => F::Eq("class".into(), r.pick(&["person", "group", "account", "service_account", "application", "posixaccount"]).to_string()),
+            0 => F::Eq("class".into(), r.pick(&["person", "group", "account", "person", "group", "service_account", "application", "posixaccount"]).to_string()),
             1 => F::Eq("name".into(), r.pick(&names).clone()),
             2 => F::Pres(r.pick(&["mail", "displayname", "gidnumber", "member", "memberof"]).to_string()),
             3 => F::Eq("memberof".into(), r.pick(&["c40g0", "c40g1", "c40readers"]).to_string()),
@@ -837,9 +844,10 @@ fn gen_bind(r: &mut Rng, w: &World) -> Req {
     Req::Bind { dn, pw, what }
 }
 
-fn gen_req(r: &mut Rng, w: &World, budget_bias: bool) -> Req {
+fn gen_req(r: &mut Rng, w: &World, budget_bias: bool, bound: bool) -> Req {
     let base = w.basedn.clone();
-    let k = r.below(100);
+    // a bound connection mostly reads
+    let k = if bound && r.chance(2, 5) { 34 + r.below(40) } else { r.below(100) };
     if k < 34 {
         return gen_bind(r, w);
     }
@@ -1436,7 +1444,7 @@ async fn run_conn(w: &mut World, cx: &mut Ctx<'_>, wi: u64, ci: u64, nmsg: usize
         if cs.closed || upto.map(|u| mi > u).unwrap_or(false) || cx.oracle_failed {
             break;
         }
-        let req = gen_req(&mut r, w, bias);
+        let req = gen_req(&mut r, w, bias, cs.session.is_some());
         log.push(req.json());
         let input = json!({"seed": cx.seed, "world": wi, "conn": ci, "upto": mi, "flag": w.flag, "basedn": w.basedn, "requests": log.clone()});
         let Some(msg) = wire(&req, w, msgid) else {
@@ -1823,13 +1831,14 @@ async fn probe_expiry(w: &mut World, cx: &mut Ctx<'_>, strict: bool) {
         sout.outcome
     ));
     if outlives && strict {
-        cx.fail(
-            "impl-vs-oracle",
-            "c40:token-session-outlives-token-expiry",
-            json!({"probe": "expiry", "seed": cx.seed}),
-            format!("native {native_id:?}"),
-            format!("ldap {ldap_id:?}; search {} with {nrows} entries", sout.outcome),
-        );
+        // recorded finding D40: reported on every run, but the exploration goes on
+        cx.rep.fail(Failure {
+            kind: "impl-vs-oracle".into(),
+            class: "c40:token-session-outlives-token-expiry".into(),
+            input: json!({"probe": "expiry", "seed": cx.seed}),
+            expected: format!("native {native_id:?}"),
+            observed: format!("ldap {ldap_id:?}; search {} with {nrows} entries", sout.outcome),
+        });
     }
     // the token is part of the world from now on (expired)
     if let Some(k) = decode_tok("s0-short", &secret, true) {
@@ -1846,7 +1855,7 @@ fn main() {
     );
     let mut drv = Driver::spawn(&args.driver);
     let rt = tokio::runtime::Builder::new_multi_thread().worker_threads(2).enable_all().build().expect("runtime");
-    let strict_expiry = args.extra.get("strict-expiry").map(|v| v == "1").unwrap_or(false);
+    let strict_expiry = args.extra.get("strict-expiry").map(|v| v == "1").unwrap_or(true);
     let t0 = std::time::Instant::now();
     rt.block_on(async {
         let mut cx = Ctx { seed: args.seed, drv: &mut drv, rep: &mut rep, oracle_failed: false, model_fails: 0 };
